@@ -601,6 +601,7 @@ Plan gen_base(const std::string &profile, uint64_t seed, const JV &opts) {
 			Op f = g.mk("send", c); JV pr = JV::obj(); pr.set("id", JV::str("xf" + std::to_string(c))); JV q = JV::obj(); q.set("id", JV::str("xq" + std::to_string(c))); q.set("method", JV::str("fetch")); q.set("params", pr); f.a.set("msg", q); g.p.ops.push_back(f);
 			if (kind != 0 && r.chance(0.8)) { std::string path = "x/" + std::to_string(c); bool st = r.chance(0.6); Op a = g.mk("send", c); JV p2 = JV::obj(); p2.set("path", JV::str(path)); if (st) p2.set("value", JV::num(1)); JV q2 = JV::obj(); q2.set("id", JV::str("xa" + std::to_string(c))); q2.set("method", JV::str("add")); q2.set("params", p2); a.a.set("msg", q2); later.push_back(a); g.owner_of[path] = c; g.is_state[path] = st; g.paths.push_back(path); g.paths.push_back(path); }
 			g.p.ops[before].a.put("fkind", JV::num(kind));
+			if (r.chance(0.3)) { g.p.ops[before].a.put("wboundary", JV::boolean(true)); if (kind != 0) g.p.ops[before].a.put("faulty", JV::boolean(true)); }
 		}
 		// a healthy observer (fetch-all) behind the faulty peers: what it is told decides whether a faulty peer's own add took effect
 		{ GClient gc; gc.c = g.next_client++; gc.tr = "raw"; Op o = g.mk("connect", gc.c); o.a.set("tr", JV::str("raw")); o.a.set("ip", JV::str("127.0.0.1")); JV pol = JV::obj(); pol.set("mode", JV::str("result")); pol.set("delay", JV::num(0)); o.a.set("policy", pol); g.p.ops.push_back(o); gc.alive = false; g.cl.push_back(gc);
@@ -1212,6 +1213,7 @@ Plan gen_c10(const std::string &profile, uint64_t seed, const JV &opts) {
 		GClient gc; gc.c = c; double x = r.unit(); gc.tr = x < 0.35 ? "ws" : x < 0.45 ? "uds" : "raw";
 		Op o = g.mk("connect", c); o.a.set("tr", JV::str(gc.tr)); o.a.set("ip", JV::str("127.0.0.1"));
 		JV pol = JV::obj(); static const char *modes[] = {"result", "result", "error", "never"}; pol.set("mode", JV::str(modes[r.below(4)])); pol.set("delay", JV::num(r.chance(0.7) ? 0 : 1000000)); o.a.set("policy", pol);
+		if (vict && r.chance(0.45)) o.a.set("wboundary", JV::boolean(true));
 		if (vict) { o.a.set("faulty", JV::boolean(true)); if (r.chance(0.3)) o.a.set("wcap", JV::num((double)(1 + r.below(r.chance(0.5) ? 7 : 60)))); if (r.chance(0.2)) o.a.set("space", JV::num((double)r.below(300))); }
 		if (r.chance(0.3)) o.a.set("rdcap", JV::num((double)(1 + r.below(64))));
 		o.dt = g.pick_dt(); g.p.ops.push_back(o); g.cl.push_back(gc);
